@@ -220,6 +220,15 @@ func (ev *Evaluator) Eval(fn *ssa.Function, args []Val) (*Outcome, error) {
 				}
 				cb, ok := c.(Const)
 				if !ok || cb.V == nil || cb.V.Kind() != constant.Bool {
+					// uninterpreted boolean (result of a call outside the module): an atom of the scenario
+					if _, isTerm := c.(Term); isTerm {
+						if ord, known := ev.Oracle.Cmp(c, Const{constant.MakeBool(true)}); known {
+							ev.Asked = append(ev.Asked, fmt.Sprintf("%v", c))
+							cb, ok = Const{constant.MakeBool(ord == 0)}, true
+						}
+					}
+				}
+				if !ok || cb.V == nil || cb.V.Kind() != constant.Bool {
 					return nil, &Undecided{in.Pos(), fmt.Sprintf("branch on non-atomic condition %v in %s", c, fn)}
 				}
 				if constant.BoolVal(cb.V) {
